@@ -201,4 +201,58 @@ theorem verify_ends_stopped (s : St) (p : Parked) (kn : Nat → Bool) (h : Life 
   · exact h2
   · rw [hh] at h2; cases h2.1
 
+/-! ### `Op.verifyHeld`: the verify command while the harness leaves the storage gates as they are -/
+
+/-- As `verify_handle_fields`, the gates unchanged. -/
+theorem verifyHeld_handle_fields (s : St) (p : Parked) (kn : Nat → Bool) (h : Life s) (he : s.errC = false)
+    (hi : s.info = true) (hp : s.panicked = none) :
+    (handle s p kn .verifyHeld).1.1.panicked = none ∧ (handle s p kn .verifyHeld).1.1.stopAnn = false ∧
+    (handle s p kn .verifyHeld).1.1.allocator = true ∧ (handle s p kn .verifyHeld).1.1.gateOpen = s.gateOpen ∧
+    (handle s p kn .verifyHeld).1.1.gateRead = s.gateRead ∧ (handle s p kn .verifyHeld).1.1.doVerify = true ∧
+    (handle s p kn .verifyHeld).1.1.bf = none ∧ (handle s p kn .verifyHeld).1.1.failOpen = s.failOpen ∧
+    (handle s p kn .verifyHeld).1.1.errC = true ∧ (handle s p kn .verifyHeld).1.1.fileExists = s.fileExists ∧
+    (handle s p kn .verifyHeld).1.1.cfg = s.cfg ∧ (handle s p kn .verifyHeld).1.1.stopHang = s.stopHang := by
+  obtain ⟨i1, i2, i3, i4, i5, i6, i7, i8⟩ := h.idle (Or.inl he)
+  have hst : ∀ x : St, x.errC = false → x.status = .stopped := fun x hx => (status_stopped_iff x).2 hx
+  simp only [handle]
+  unfold handleVerifyCommand
+  simp only [onSt_fst]
+  rw [if_pos (hst _ (by simpa using he))]
+  unfold startCore
+  simp [he, hi, i1, i3, hp]
+
+/-- `verify_ends_stopped_or_hangs` for `Op.verifyHeld`: the gates are not released by the op, so that they are
+released is a hypothesis.  (With a gate held the op ends `Allocating` / `Verifying` with the request pending —
+the situation of finding C04-F6, see `stopOp_ends_stopped`.) -/
+theorem verifyHeld_ends_stopped_or_hangs (s : St) (p : Parked) (kn : Nat → Bool) (h : Life s) (he : s.errC = false)
+    (hi : s.info = true) (hp : s.panicked = none) (hf : s.failOpen = false)
+    (hgo : s.gateOpen = false) (hgr : s.gateRead = false) :
+    (step s p kn .verifyHeld).1.st.doVerify = false ∧
+    ((step s p kn .verifyHeld).1.st.status = .stopped ∨
+      (s.stopHang = true ∧ (step s p kn .verifyHeld).1.st.status = .stopping ∧
+        (step s p kn .verifyHeld).1.st.stopHang = true)) := by
+  rw [status_stopped_iff, status_stopping_iff, step_st]
+  have h0 : Life { s with sto := [], mayStart := [], closedDl := [], mayStartI := false } := h.congr (by lframe)
+  obtain ⟨a1, a2, a3, a4, a5, a6, a7, a8, a9, a10, a11, a12⟩ :=
+    verifyHeld_handle_fields { s with sto := [], mayStart := [], closedDl := [], mayStartI := false } p kn h0 he hi hp
+  generalize hm : (handle { s with sto := [], mayStart := [], closedDl := [], mayStartI := false } p kn .verifyHeld) = r at *
+  have hlA : Life r.1.1 := by rw [← hm]; exact handle_life _ p kn .verifyHeld h0
+  obtain ⟨d1, d2⟩ := alloc_verify_settles 9 r.1 hlA a1 a2 a3 (by rw [a4]; exact hgo) (by rw [a5]; exact hgr) a6 a7
+    (by rw [a8]; exact hf) a9
+  rw [settle_step _ r.2.2 p.isSome (runWorkers_life 12 _ hlA) (settle_nr d2)]
+  refine ⟨d1, ?_⟩
+  rcases d2 with d2 | ⟨d2, d3⟩
+  · exact Or.inl d2
+  · exact Or.inr ⟨a12 ▸ d2, ⟨d3.1, d3.2.1⟩, d3.2.2⟩
+
+theorem verifyHeld_ends_stopped (s : St) (p : Parked) (kn : Nat → Bool) (h : Life s) (he : s.errC = false)
+    (hi : s.info = true) (hp : s.panicked = none) (hf : s.failOpen = false)
+    (hgo : s.gateOpen = false) (hgr : s.gateRead = false) (hh : s.stopHang = false) :
+    (step s p kn .verifyHeld).1.st.status = .stopped ∧ (step s p kn .verifyHeld).1.st.doVerify = false := by
+  obtain ⟨h1, h2⟩ := verifyHeld_ends_stopped_or_hangs s p kn h he hi hp hf hgo hgr
+  refine ⟨?_, h1⟩
+  rcases h2 with h2 | h2
+  · exact h2
+  · rw [hh] at h2; cases h2.1
+
 end Rain.Loop
